@@ -92,6 +92,7 @@ func (mpf Transform[T, O]) ProcessParallel(
 	init := Operation(func(ctx context.Context) {
 		wctx, wcancel := context.WithCancel(ctx)
 		wg := &WaitGroup{}
+		opts.abort = wcancel
 		mf := mpf.WithRecover()
 		splits := iter.Split(opts.NumWorkers)
 		for idx := range splits {
@@ -99,9 +100,7 @@ func (mpf Transform[T, O]) ProcessParallel(
 
 			mf.mapPullProcess(output.Send().Write, opts).
 				ReadAll(splits[idx].Producer()).
-				Operation(func(err error) {
-					ft.WhenCall(ers.Is(err, io.EOF, ers.ErrCurrentOpAbort), wcancel)
-				}).
+				Ignore().
 				Add(wctx, wg)
 		}
 
